@@ -174,9 +174,10 @@ PROPS = {
                         "fair scheduling by the Go runtime"],
     },
     "C17": {
-        "proof_files": ["Proofs/StoreFacts.v", "Proofs/ConfigFacts.v", "Proofs/FwdTextFacts.v"],
+        "proof_files": ["Proofs/StoreFacts.v", "Proofs/ConfigFacts.v", "Proofs/FwdTextFacts.v", "Proofs/ProfTextFacts.v"],
         "runs": [{"engine": "config", "args": [], "n_quick": 200, "n_thorough": 15000, "netns": True},
                  {"engine": "fwdtext", "args": [], "n_quick": 3000, "n_thorough": 200000},
+                 {"engine": "proftext", "args": [], "n_quick": 2000, "n_thorough": 100000, "netns": True},
                  {"engine": "daemon", "args": ["-mode", "svc"], "n_quick": 4, "n_thorough": 60, "netns": True, "mountns": True}],
         "trivial_tags": [r"^rejected$"],
         "rule": "random option sets (repeated -listen, 0-4 -profile entries of every condition kind incl. interfaces and the deprecated -config "
